@@ -84,6 +84,41 @@ pub fn generate(g: &mut Gen) {
             g.push(format!("obj.loss {} {} {} {}", o, clamp_tok(c), qt(&to3(&p)), qt(&to3(&t))), Tol::Tight, &format!("{}/near-equal/3d", o), true);
         }
     }
+    // tiny (but non-zero) targets of the probabilistic objectives: below, at and just above the clamping epsilon, subnormal
+    // — a zero-target rule applies to targets that ARE zero only; all-tiny vectors make the tiny terms the whole loss
+    for o in ["kl", "bce", "ce"] {
+        let below = f32::from_bits(1e-6f32.to_bits() - 1);
+        let above = f32::from_bits(1e-6f32.to_bits() + 1);
+        let ts: Vec<Vec<f32>> = vec![vec![5e-7, 3e-7, 9e-7, 1e-7], vec![below, 1e-6, above, 2e-6], vec![1e-40, 3e-42, 1e-38, 1e-20],
+            vec![5e-7, 0.0, 0.25, 1e-7], vec![1e-10, 1e-8, 1e-12, 9.9e-7]];
+        for t in ts.iter() {
+            let p: Vec<f32> = (0..4).map(|_| g.rng().uniform(0.05, 0.95)).collect();
+            for c in [None, Some((-0.5f32, 0.5f32))] {
+                let (p1, t1) = (Tensor::single(p.clone()), Tensor::single(t.clone()));
+                g.push(format!("obj.loss {} {} {} {}", o, clamp_tok(c), qt(&p1), qt(&t1)), Tol::Tight, &format!("{}/tiny-targets/1d", o), true);
+                let to3 = |v: &Vec<f32>| Tensor::triple(vec![v.chunks(2).map(|r| r.to_vec()).collect()]);
+                g.push(format!("obj.loss {} {} {} {}", o, clamp_tok(c), qt(&to3(&p)), qt(&to3(t))), Tol::Tight, &format!("{}/tiny-targets/3d", o), true);
+            }
+        }
+    }
+    // ONE objective value evaluated on pairs of different sizes and ranks in a row: nothing is remembered between calls
+    for o in OBJS.iter() {
+        for c in [None, Some((-0.1f32, 0.1f32))] {
+            let sizes: [(usize, usize, usize); 5] = [(1, 1, 4), (1, 1, 2), (2, 1, 3), (1, 2, 2), (1, 1, 6)];
+            let mut toks = Vec::new();
+            for (i, (ch, h, w)) in sizes.iter().enumerate() {
+                let n = ch * h * w;
+                let (p, t) = pair(g, o, n, false);
+                if i % 2 == 0 {
+                    toks.push(format!("{} {}", qt(&Tensor::single(p)), qt(&Tensor::single(t))));
+                } else {
+                    let to3 = |v: &Vec<f32>| Tensor::triple(v.chunks(h * w).map(|m| m.chunks(*w).map(|r| r.to_vec()).collect()).collect());
+                    toks.push(format!("{} {}", qt(&to3(&p)), qt(&to3(&t))));
+                }
+            }
+            g.push(format!("obj.seq {} {} {} {}", o, clamp_tok(c), sizes.len(), toks.join(" ")), Tol::Tight, &format!("{}/several-pairs-one-objective", o), true);
+        }
+    }
     // the objective configured through the network, twice in a row: the second configuration decides alone (no clamp,
     // objective or interval carried over from the first)
     for (i, o) in OBJS.iter().enumerate() {
